@@ -118,7 +118,8 @@ def capture(ctx: Ctx):
             rets = [n for n in walk_local(outer.node) if isinstance(n, ast.Return) and n.value is not None]
             okr = D is not None and bool(rets) and all(isinstance(r.value, ast.Name) and r.value.id == D for r in rets)
             # and never rebound
-            rebinds = [n for n in walk_local(outer.node) if isinstance(n, ast.Assign) and any(isinstance(x, ast.Name) and x.id == D for x in n.targets)]
+            rebinds = [n for n in walk_local(outer.node) if (isinstance(n, ast.Assign) and any(isinstance(x, ast.Name) and x.id == D for x in n.targets))
+                       or (isinstance(n, ast.AnnAssign) and n.value is not None and isinstance(n.target, ast.Name) and n.target.id == D)]
             okr = okr and len(rebinds) == 1 and isinstance(rebinds[0].value, ast.Dict) and not rebinds[0].value.keys
             yield ctx.ob('C01.CAPTURE', okr, outer, rets[0] if rets else outer.node, 'the capture dict is what run() returns',
                          '' if okr else f'run() does not return the dict `{D}` the results are captured into (or rebinds it)')
